@@ -1,3 +1,5 @@
+import Unimock.Generated.Control
+import Unimock.Lemmas.Gates
 import Unimock.Props.C01
 import Unimock.Props.C04
 import Unimock.Model.Method
@@ -144,5 +146,36 @@ theorem C07_continuations (env : Env α ρ) (fuel lvl : Nat) (s : Shared α ρ) 
 /-- non-vacuity: strict mock, unmentioned method without default body -/
 example : (evalCall (⟨.error, [], 0, []⟩ : Shared Nat Int) ⟨0, "T", "f", false, false, false⟩ 0).2
     = .err (.noMockImplementation ⟨0, "T", "f", false, false, false⟩) := by decide
+
+
+/-! ### the fall-through decision trees as the source has them (`Generated/Control.lean`) -/
+
+/-- the re-translated "no mocker for this function" tree of `DynCtx::eval_dyn` decides as the model on all 8 observations -/
+theorem C07_source_no_mocker_tree :
+    ∀ d p : Bool, ∀ fb : Gates.Fb, Generated.noMockerTree.eval d p fb = Gates.specNoMocker d p fb := by
+  intro d p fb; cases d <;> cases p <;> cases fb <;> rfl
+
+/-- the re-translated "no pattern matched" tree decides as the model -/
+theorem C07_source_no_match_tree :
+    ∀ d p : Bool, ∀ fb : Gates.Fb, Generated.noMatchTree.eval d p fb = Gates.specNoMatch fb := by
+  intro d p fb; cases d <;> cases p <;> cases fb <;> rfl
+
+/-- a call to a method no clause mentions: the outcome is the one the source tree selects, and the state is untouched -/
+theorem C07_source_unmentioned {α ρ} (s : Shared α ρ) (m : MethodInfo) (a : α) (h : s.find m.id = none) :
+    evalCall s m a =
+      (s, concretiseNoMock m (Generated.noMockerTree.eval m.hasDefaultImpl m.partialByDefault (fbOf s.fallback))) := by
+  rw [C07_source_no_mocker_tree]; exact evalCall_noMocker_eq_spec s m a h
+
+/-- a call all of whose method's unordered patterns reject: the outcome is the one the source tree selects -/
+theorem C07_source_all_reject {α ρ} (s : Shared α ρ) (m : MethodInfo) (a : α) (fm : FnMocker α ρ)
+    (h : s.find m.id = some fm) (hm : fm.mode = .anyOrder) (hs : scan fm.pats a 0 = none) :
+    evalCall s m a =
+      (s, concretiseNoMock m (Generated.noMatchTree.eval m.hasDefaultImpl m.partialByDefault (fbOf s.fallback))) := by
+  rw [C07_source_no_match_tree]; exact evalCall_noMatch_eq_spec s m a fm h hm hs
+
+/-- no leaf of either source tree is a fabricated value: every leaf is a continuation or an error -/
+example : Generated.noMockerTree.eval false false .error = .errNoMockImplementation ∧
+    Generated.noMockerTree.eval true true .error = .callDefault ∧
+    Generated.noMatchTree.eval true true .unmock = .unmock := by decide
 
 end Unimock
